@@ -5,6 +5,9 @@ mod util;
 mod dev;
 mod eng_bits;
 mod eng_pages;
+mod wprog;
+mod scene;
+mod eng_writer;
 
 use util::Sink;
 
@@ -12,12 +15,15 @@ fn exec_line(engine: &str, line: &str) -> String {
     match engine {
         "bits" => eng_bits::exec(line),
         "pages" => eng_pages::exec(line),
+        "writer" => eng_writer::exec(line),
         _ => "BADENGINE".into(),
     }
 }
 
 fn main() {
-    std::panic::set_hook(Box::new(|_| {}));
+    if std::env::var("E57H_VERBOSE").is_err() {
+        std::panic::set_hook(Box::new(|_| {}));
+    }
     let args: Vec<String> = std::env::args().collect();
     if args.len() < 3 {
         eprintln!("usage: e57harness gen|exec <engine> ...");
@@ -33,6 +39,7 @@ fn main() {
             match engine {
                 "bits" => eng_bits::generate(&mut sink, seed, thorough),
                 "pages" => eng_pages::generate(&mut sink, seed, thorough),
+                "writer" => eng_writer::generate(&mut sink, seed, thorough),
                 _ => {
                     eprintln!("unknown engine {engine}");
                     std::process::exit(2);
